@@ -32,7 +32,7 @@ def gen(rng, ntempl=None, allow_anon=True, branchpoints=True, xta_common=False):
     for ti in range(nt):
         T = dict(name='T%d' % ti, params=[], decl=['v%d_%d' % (ti, k) for k in range(rng.randrange(0, 3))], locs=[], bps=[], edges=[])
         for pi in range(rng.randrange(0, 3)):
-            T['params'].append(('p%d_%d' % (ti, pi), rng.choice(['val', 'ref'])))
+            T['params'].append(('p%d_%d' % (ti, pi), rng.choice(['val', 'ref', 'val', 'ref', 'cval', 'cref'])))
         nl = rng.randrange(1, 5)
         for li in range(nl):
             named = (not allow_anon) or rng.random() < 0.6
@@ -84,7 +84,7 @@ def gen(rng, ntempl=None, allow_anon=True, branchpoints=True, xta_common=False):
                     q = 'q%d_%d_%d' % (ti, k, len(own))
                     own.append(q); args.append(('param', q))
                 else:
-                    args.append(('const', marker()) if kind == 'val' else ('var', rng.choice(M.globals)))
+                    args.append(('const', marker()) if kind in ('val', 'cval', 'cref') else ('var', rng.choice(M.globals)))
             M.processes.append(dict(name='P%d_%d' % (ti, k), templ=T['name'], args=args, own=own))
             if own and rng.random() < 0.5:
                 # a chain: the partial instance is instantiated again, which closes its own parameters
@@ -103,7 +103,7 @@ def gen(rng, ntempl=None, allow_anon=True, branchpoints=True, xta_common=False):
             M.system.append([t for t in M.templates if not t['params']][0]['name'])
         else:
             T = M.templates[0]
-            M.processes.append(dict(name='P0_x', templ=T['name'], args=[('const', marker()) if kind == 'val' else ('var', rng.choice(M.globals)) for (pn, kind) in T['params']]))
+            M.processes.append(dict(name='P0_x', templ=T['name'], args=[('const', marker()) if kind in ('val', 'cval', 'cref') else ('var', rng.choice(M.globals)) for (pn, kind) in T['params']]))
             M.system.append('P0_x')
     rng.shuffle(M.system)
     M.priorities = len(M.system) > 1 and rng.random() < 0.15
@@ -169,7 +169,7 @@ def system_text(M):
 
 
 def params_text(T):
-    return ', '.join(('int %s' if k == 'val' else 'int &%s') % n for n, k in T['params'])
+    return ', '.join({'val': 'int %s', 'ref': 'int &%s', 'cval': 'const int %s', 'cref': 'const int &%s'}[k] % n for n, k in T['params'])
 
 
 def render_xml(M, rng=None):
@@ -261,7 +261,7 @@ def expected(M):
     """the structure the document must have"""
     D = dict(templates=[], processes=[])
     for T in M.templates:
-        t = dict(name=T['name'], params=[n for n, _ in T['params']], locs=[], bps=['_' + b for b in T['bps']], init=loc_name(T, T['init']), edges=[], decl=list(T['decl']))
+        t = dict(name=T['name'], params=[n for n, _ in T['params']], pkinds=[(n, k in ('ref', 'cref'), k in ('cval', 'cref')) for n, k in T['params']], locs=[], bps=['_' + b for b in T['bps']], init=loc_name(T, T['init']), edges=[], decl=list(T['decl']))
         for l in T['locs']:
             t['locs'].append((loc_name(T, l['id']), l['inv'], l['rate'], l['urgent'], l['committed']))
         for e in T['edges']:
@@ -310,7 +310,8 @@ def parse_dump(lines):
         m = re.match(r'template (\d+) name=(\S+) params=\[(.*?)\] isTA=(\d) instantiated=(\d) dynamic=\d init=(\S+) nloc=(\d+) nbp=(\d+) nedge=(\d+)', l)
         if m:
             params = [x.strip().split(' ')[-1] for x in m.group(3).split(';') if x.strip()]
-            cur = dict(name=m.group(2), params=params, locs=[], bps=[], init=m.group(6), edges=[], decl=[], counts=(int(m.group(7)), int(m.group(8)), int(m.group(9))))
+            pkinds = [(x.strip().split(' ')[-1], '(ref' in x, '(const' in x) for x in m.group(3).split(';') if x.strip()]
+            cur = dict(name=m.group(2), params=params, pkinds=pkinds, locs=[], bps=[], init=m.group(6), edges=[], decl=[], counts=(int(m.group(7)), int(m.group(8)), int(m.group(9))))
             D['templates'].append(cur)
             continue
         m = re.match(r't\d+ var \d+ (\S+) :', l)
@@ -353,8 +354,8 @@ def diff(exp, got):
     if len(exp['templates']) != len(got['templates']):
         return 'number of templates: expected %d, got %d' % (len(exp['templates']), len(got['templates']))
     for te, tg in zip(exp['templates'], got['templates']):
-        for key in ('name', 'params', 'init', 'bps', 'decl'):
-            if te[key] != tg[key]:
+        for key in ('name', 'params', 'pkinds', 'init', 'bps', 'decl'):
+            if te.get(key) != tg.get(key):
                 return 'template %s: %s expected %r, got %r' % (te['name'], key, te[key], tg[key])
         if te['locs'] != tg['locs']:
             for a, b in zip(te['locs'] + [None], tg['locs'] + [None]):
